@@ -324,6 +324,14 @@ EX = [
      "tx_intervals": [[1, 5]], "chr_intervals": [[3, 11]]},
     {"exons": [[3, 12]], "strand": "-", "cds": [[3, 12]], "frames": [0], "offset": 0, "frameshift": False, "cds_i": 0, "cds_j": 9,
      "tx_intervals": [[1, 5]], "chr_intervals": [[3, 11]]},
+    # a -1 frameshift model (CDS blocks overlapping by one base) whose UTRs are exactly as long as the overlap: the CDS has as many
+    # bases as the transcript without being the whole transcript (one base of UTR on the 5' side / on the 3' side, either strand)
+    {"exons": [[0, 12]], "strand": "+", "cds": [[1, 6], [5, 12]], "frames": [0, 2], "offset": 0, "frameshift": False, "cds_overlapped": True, "cds_i": 1, "cds_j": 12,
+     "tx_intervals": [[0, 3]], "chr_intervals": [[0, 12]], "genome": "AATGAAACCCGGGTTT"},
+    {"exons": [[0, 12]], "strand": "-", "cds": [[0, 6], [5, 11]], "frames": [2, 0], "offset": 0, "frameshift": False, "cds_overlapped": True, "cds_i": 1, "cds_j": 12,
+     "tx_intervals": [[0, 3]], "chr_intervals": [[0, 12]], "genome": "AATGAAACCCGGGTTT"},
+    {"exons": [[0, 5], [8, 15]], "strand": "+", "cds": [[0, 5], [8, 12], [11, 14]], "frames": [0, 2, 0], "offset": 0, "frameshift": False, "cds_overlapped": True, "cds_i": 0, "cds_j": 11,
+     "tx_intervals": [[0, 3]], "chr_intervals": [[0, 15]], "genome": "AATGAAACCCGGGTTTAA"},
 ]
 
 PROP = Prop(
